@@ -255,3 +255,4 @@ UNITS = [("C07.load_db.old_state_discarded_before_the_new_database_is_read", uni
          ("C07.PBasic.new_interpreter_with_constructor_values_after_load", unit_basic_interpreter),
          ("C07.pitzer_sit.work_lists_rebuilt_from_empty_by_their_only_writer", unit_work_lists),
          ("C07.do_initialize.runs_initialize_in_state_INITIALIZE", unit_do_initialize)]
+from props.c07_ext2 import UNITS as _U2; UNITS = UNITS + _U2
